@@ -1119,6 +1119,8 @@ namespace UvModel.IoWatch
 /-- kernel-side invariant (with the registry facts it needs) -/
 structure KCore (s : St) : Prop where
   sq : s.sq = []
+  /-- the user discipline is in force -/
+  multi : s.multi = false
   /-- a watcher whose `events` is non-zero has its (description, fd) entry, with exactly that mask -/
   armed : ∀ id, id < s.ws.length → (getW s id).events ≠ Mask.none →
     ∃ o, s.k.ofdAt (getW s id).fd = some o ∧ s.k.maskAt o (getW s id).fd = some (getW s id).events
@@ -1138,10 +1140,10 @@ structure KCore (s : St) : Prop where
 
 /-- KCore only looks at these fields -/
 theorem KCore.frame {s t : St} (c : KCore s) (h1 : t.ws = s.ws) (h2 : t.watchers = s.watchers) (h3 : t.wq = s.wq)
-    (h4 : t.k = s.k) (h5 : t.sq = s.sq) : KCore t := by
+    (h4 : t.k = s.k) (h5 : t.sq = s.sq) (h6 : t.multi = s.multi) : KCore t := by
   have hg : ∀ id, getW t id = getW s id := by intro id; simp [getW, h1]
   have hw : ∀ fd, watcherAt t fd = watcherAt s fd := by intro fd; simp [watcherAt, h2]
-  refine ⟨by rw [h5]; exact c.sq, ?_, ?_, ?_, ?_, ?_, ?_⟩
+  refine ⟨by rw [h5]; exact c.sq, by rw [h6]; exact c.multi, ?_, ?_, ?_, ?_, ?_, ?_⟩
   · intro id hl; rw [hg, h4]; exact c.armed id (by rw [← h1]; exact hl)
   · intro o fd; rw [h4]; intro h
     obtain ⟨a, id, b⟩ := c.owned o fd h
@@ -1155,10 +1157,10 @@ theorem KCore.frame {s t : St} (c : KCore s) (h1 : t.ws = s.ws) (h2 : t.watchers
 def KEq (k k' : Kernel) : Prop := (∀ fd, k'.ofdAt fd = k.ofdAt fd) ∧ ∀ o fd, k'.maskAt o fd = k.maskAt o fd
 
 theorem KCore.congr {s t : St} (c : KCore s) (h1 : t.ws = s.ws) (h2 : t.watchers = s.watchers) (h3 : t.wq = s.wq)
-    (h4 : KEq s.k t.k) (h5 : t.sq = s.sq) : KCore t := by
+    (h4 : KEq s.k t.k) (h5 : t.sq = s.sq) (h6 : t.multi = s.multi) : KCore t := by
   have hg : ∀ id, getW t id = getW s id := by intro id; simp [getW, h1]
   have hw : ∀ fd, watcherAt t fd = watcherAt s fd := by intro fd; simp [watcherAt, h2]
-  refine ⟨by rw [h5]; exact c.sq, ?_, ?_, ?_, ?_, ?_, ?_⟩
+  refine ⟨by rw [h5]; exact c.sq, by rw [h6]; exact c.multi, ?_, ?_, ?_, ?_, ?_, ?_⟩
   · intro id hl; rw [hg, h4.1]; simp only [h4.2]; exact c.armed id (by rw [← h1]; exact hl)
   · intro o fd; rw [h4.2, h4.1]; intro h
     obtain ⟨a, id, b⟩ := c.owned o fd h
@@ -1178,7 +1180,7 @@ theorem KCore.setFlags {s : St} (c : KCore s) (id : Nat) (w : W) (hf : w.fd = (g
     intro j; rw [getW_setW]; split
     · rename_i h; rw [h.1]; exact ⟨hf, hp, he, hc, hcl⟩
     · exact ⟨rfl, rfl, rfl, rfl, rfl⟩
-  refine ⟨c.sq, ?_, ?_, ?_, ?_, ?_, ?_⟩
+  refine ⟨c.sq, c.multi, ?_, ?_, ?_, ?_, ?_, ?_⟩
   · intro j hl; rw [(hg j).1, (hg j).2.2.1]; exact c.armed j (by simpa using hl)
   · intro o fd h
     obtain ⟨a, j, b1, b2, b3, b4⟩ := c.owned o fd h
@@ -1191,15 +1193,17 @@ theorem KCore.setFlags {s : St} (c : KCore s) (id : Nat) (w : W) (hf : w.fd = (g
     exact c.live j (by simpa using hl)
   · intro j hj; rw [(hg j).2.1]; have := c.queued j hj; exact ⟨by simpa using this.1, this.2⟩
 
-theorem ioStart_k (s : St) (id : Nat) (m : Mask) : (ioStart s id m).k = s.k ∧ (ioStart s id m).sq = s.sq := by
+theorem ioStart_k (s : St) (id : Nat) (m : Mask) :
+    (ioStart s id m).k = s.k ∧ (ioStart s id m).sq = s.sq ∧ (ioStart s id m).multi = s.multi := by
   unfold ioStart maybeResize setW; simp only []
   repeat' split
-  all_goals exact ⟨rfl, rfl⟩
+  all_goals exact ⟨rfl, rfl, rfl⟩
 
-theorem ioStop_k (s : St) (id : Nat) (m : Mask) : (ioStop s id m).k = s.k ∧ (ioStop s id m).sq = s.sq := by
+theorem ioStop_k (s : St) (id : Nat) (m : Mask) :
+    (ioStop s id m).k = s.k ∧ (ioStop s id m).sq = s.sq ∧ (ioStop s id m).multi = s.multi := by
   unfold ioStop setW; simp only []
   repeat' split
-  all_goals exact ⟨rfl, rfl⟩
+  all_goals exact ⟨rfl, rfl, rfl⟩
 
 theorem Mask.diff_none (m : Mask) : Mask.none.diff m = Mask.none := by
   simp [Mask.diff, Mask.none]
@@ -1210,7 +1214,7 @@ theorem KCore.start {s : St} (c : KCore s) (id : Nat) (m : Mask) (hid : id < s.w
     (hw : watcherAt s (getW s id).fd = none ∨ watcherAt s (getW s id).fd = some id) :
     KCore (ioStart s id m) := by
   obtain ⟨hg, hl, hq, ha, _⟩ := ioStart_spec s id m hid
-  obtain ⟨hk, hsq⟩ := ioStart_k s id m
+  obtain ⟨hk, hsq, hmu⟩ := ioStart_k s id m
   have hpe := Mask.or_ne_none (getW s id).pevents m hm
   have gfd : ∀ j, (getW (ioStart s id m) j).fd = (getW s j).fd := by
     intro j; rw [hg]; split
@@ -1224,7 +1228,7 @@ theorem KCore.start {s : St} (c : KCore s) (id : Nat) (m : Mask) (hid : id < s.w
     intro j; rw [hg]; split
     · rename_i e; rw [e]
     · rfl
-  refine ⟨by rw [hsq]; exact c.sq, ?_, ?_, ?_, ?_, ?_, ?_⟩
+  refine ⟨by rw [hsq]; exact c.sq, by rw [hmu]; exact c.multi, ?_, ?_, ?_, ?_, ?_, ?_⟩
   · intro j hj; rw [gfd, gev, hk]; exact c.armed j (by rw [← hl]; exact hj)
   · intro o fd h; rw [hk] at h ⊢
     obtain ⟨a, j, b1, b2, b3, b4⟩ := c.owned o fd h
@@ -1284,7 +1288,7 @@ namespace UvModel.IoWatch
 
 theorem KCore.stop {s : St} (c : KCore s) (i : SInv s) (id : Nat) (m : Mask) : KCore (ioStop s id m) := by
   obtain ⟨hg, hl, hq, ha, _⟩ := ioStop_spec s id m
-  obtain ⟨hk, hsq⟩ := ioStop_k s id m
+  obtain ⟨hk, hsq, hmu⟩ := ioStop_k s id m
   have gfd : ∀ j, (getW (ioStop s id m) j).fd = (getW s j).fd := by
     intro j; rw [hg]; split
     · rename_i e; rw [e.1]; split <;> rfl
@@ -1313,7 +1317,7 @@ theorem KCore.stop {s : St} (c : KCore s) (i : SInv s) (id : Nat) (m : Mask) : K
   have wat : ∀ j fd, j ≠ id → watcherAt s fd = some j → watcherAt (ioStop s id m) fd = some j := by
     intro j fd hj h; rw [ha, if_neg]; exact h
     intro hc; rw [hc.2.2.2] at h; rw [h] at hc; have := hc.2.2.1; simp at this; exact hj this
-  refine ⟨by rw [hsq]; exact c.sq, ?_, ?_, ?_, ?_, ?_, ?_⟩
+  refine ⟨by rw [hsq]; exact c.sq, by rw [hmu]; exact c.multi, ?_, ?_, ?_, ?_, ?_, ?_⟩
   · intro j hj hne; rw [hl] at hj
     rcases gev j with h | h
     · rw [gfd, h, hk]; rw [h] at hne; exact c.armed j hj hne
@@ -1401,7 +1405,7 @@ theorem KCore.ctlDel {s : St} (c : KCore s) (fd : Nat) (m : Mask) (ow : Option N
       · right; rw [if_pos hc]; exact ⟨rfl, hc.2⟩
       · left; rw [if_neg hc]
   constructor
-  · refine ⟨c.sq, ?_, ?_, c.uniq, c.quiet, ?_, c.queued⟩
+  · refine ⟨c.sq, c.multi, ?_, ?_, c.uniq, c.quiet, ?_, c.queued⟩
     · intro id hl hne
       obtain ⟨o, h1, h2⟩ := c.armed id hl hne
       refine ⟨o, by rw [hg, hof]; exact h1, ?_⟩
@@ -1440,7 +1444,7 @@ theorem KCore.invalidate {s : St} (c : KCore s) (fd : Nat)
   unfold IoWatch.invalidate
   split
   · exact (c.frame (t := { s with batch := s.batch.map fun e => if e.1 = some fd then (none, e.2) else e })
-      rfl rfl rfl rfl rfl).ctlDel fd _ _ hun
+      rfl rfl rfl rfl rfl rfl).ctlDel fd _ _ hun
   · exact c.ctlDel fd _ _ hun
 
 /-- marking a stopped handle whose descriptor has no kernel entry as closed and/or clean -/
@@ -1468,7 +1472,7 @@ theorem KCore.retire {s : St} (c : KCore s) (id : Nat) (w : W) (hf : w.fd = (get
       · rw [h'] at h; cases h
       · rw [← h']; exact h
     · exact fun h => h
-  refine ⟨c.sq, ?_, ?_, ?_, ?_, ?_, ?_⟩
+  refine ⟨c.sq, c.multi, ?_, ?_, ?_, ?_, ?_, ?_⟩
   · intro j hl hne; rw [gfd, gev]; rw [gev] at hne; exact c.armed j (by simpa using hl) hne
   · intro o fd h
     obtain ⟨a, j, b1, b2, b3, b4⟩ := c.owned o fd h
@@ -1507,7 +1511,7 @@ theorem KCore.push {s : St} (c : KCore s) (w : W) (hp : w.pevents = Mask.none) (
       by_cases h2 : j = s.ws.length
       · rw [h2, hnew]; exact ⟨hp, he⟩
       · rw [getW_oob _ j (by rw [hlen]; omega)]; exact ⟨rfl, rfl⟩
-  refine ⟨c.sq, ?_, ?_, ?_, ?_, ?_, ?_⟩
+  refine ⟨c.sq, c.multi, ?_, ?_, ?_, ?_, ?_, ?_⟩
   · intro j hj hne; rw [hlen] at hj
     rcases hcase j hj with h | h
     · rw [hold j h] at hne ⊢; exact c.armed j h hne
@@ -1596,17 +1600,17 @@ end UvModel.IoWatch
 namespace UvModel.IoWatch
 
 theorem applyOne_direct_sq (t : St) (hr : t.ring = false) (id : Nat) :
-    (applyOne t id).sq = t.sq ∧ (applyOne t id).ring = false := by
+    (applyOne t id).sq = t.sq ∧ (applyOne t id).ring = false ∧ (applyOne t id).multi = t.multi := by
   have hr1 : ∀ w, (setW t id w).ring = false := fun _ => hr
   unfold applyOne; simp only [hr1, Bool.false_eq_true, ↓reduceIte]
   repeat' split
-  all_goals exact ⟨rfl, hr⟩
+  all_goals exact ⟨rfl, hr, rfl⟩
 
 theorem KCore.applyOne {t : St} (c : KCore t) (hr : t.ring = false) (id : Nat) (hid : id < t.ws.length)
     (hp : (getW t id).pevents ≠ Mask.none) : KCore (applyOne t id) := by
   obtain ⟨o, ho, hof, hmk, _⟩ := applyOne_direct c hr id hid hp
   have hs := applyOne_same t id
-  obtain ⟨hsq, _⟩ := applyOne_direct_sq t hr id
+  obtain ⟨hsq, _, hmu⟩ := applyOne_direct_sq t hr id
   have hg : ∀ j, getW (IoWatch.applyOne t id) j =
       if j = id then { getW t id with events := (getW t id).pevents } else getW t j := by
     intro j
@@ -1630,7 +1634,7 @@ theorem KCore.applyOne {t : St} (c : KCore t) (hr : t.ring = false) (id : Nat) (
     intro j; rw [hg]; split
     · rename_i e; rw [e]; exact ⟨rfl, rfl⟩
     · exact ⟨rfl, rfl⟩
-  refine ⟨by rw [hsq]; exact c.sq, ?_, ?_, ?_, ?_, ?_, ?_⟩
+  refine ⟨by rw [hsq]; exact c.sq, by rw [hmu]; exact c.multi, ?_, ?_, ?_, ?_, ?_, ?_⟩
   · intro j hj hne; rw [hlen] at hj
     by_cases e : j = id
     · subst e
@@ -1682,7 +1686,7 @@ theorem KCore.foldApply (l : List Nat) {t : St} (c : KCore t) (hr : t.ring = fal
       · rename_i e; rw [e.1]
       · rfl
     have hlen : (IoWatch.applyOne t a).ws.length = t.ws.length := by rw [hs.1]; simp
-    refine ih (c.applyOne hr a ha.1 ha.2) (applyOne_direct_sq t hr a).2 ?_
+    refine ih (c.applyOne hr a ha.1 ha.2) (applyOne_direct_sq t hr a).2.1 ?_
     intro id hid; rw [hlen, hg]; exact hl id (List.mem_cons_of_mem _ hid)
 
 theorem flushOnce_nil (x : St) (h : x.sq = []) : flushOnce x = x := by
@@ -1691,7 +1695,7 @@ theorem flushOnce_nil (x : St) (h : x.sq = []) : flushOnce x = x := by
 /-- direct mode: the kernel invariant survives `uv__io_poll`'s queue application (and the no-op flush) -/
 theorem KCore.applyQueue {s : St} (c : KCore s) (hr : s.ring = false) : KCore (flushAll (applyQueue s)) := by
   have c0 : KCore { s with wq := [] } :=
-    ⟨c.sq, c.armed, c.owned, c.uniq, c.quiet, c.live, by intro id h; simp at h⟩
+    ⟨c.sq, c.multi, c.armed, c.owned, c.uniq, c.quiet, c.live, by intro id h; simp at h⟩
   have c1 : KCore (IoWatch.applyQueue s) := by
     unfold IoWatch.applyQueue
     exact KCore.foldApply s.wq c0 hr (fun id h => c.queued id h)
@@ -1705,7 +1709,7 @@ end UvModel.IoWatch
 namespace UvModel.IoWatch
 
 theorem kcore_init (ring : Bool) (internal nw : Nat) : KCore (init ring internal nw) := by
-  refine ⟨rfl, ?_, ?_, ?_, ?_, ?_, ?_⟩
+  refine ⟨rfl, rfl, ?_, ?_, ?_, ?_, ?_, ?_⟩
   · intro id h; simp [init] at h
   · intro o fd h; simp [init, Kernel.maskAt, entMask] at h
   · intro i j h; simp [init] at h
